@@ -167,6 +167,16 @@ func (s *KeyStore) pushASNring(data []byte, path string) (err error) {
 	curPath := path + keyringSuffix
 	newPath := path + keyringSuffix + newSuffix
 	err = s.fs.Put(newPath, data)
+	if err == backend.ErrExist {
+		// An earlier update has been interrupted after it has written the temporary file
+		// but before it has been renamed. Key rings are updated only under the exclusive
+		// store lock, which we are holding now, so the leftover cannot be in use: discard it.
+		err = s.fs.Remove(newPath)
+		if err != nil {
+			return err
+		}
+		err = s.fs.Put(newPath, data)
+	}
 	if err != nil {
 		return err
 	}
